@@ -22,7 +22,10 @@ RULE = ("life: a machine with the built-in attract mode (start-tagged switch) an
         "on the model.  non-trivial = some mode completes >= 2 cycles or a request was issued from a lifecycle handler.  "
         "Every 8 cases carry a focused scenario: stop from a handler of the mode's own started event / start from a handler "
         "of its own stopped event, with and without a holder on its stopping queue; start(mode_priority) below, between and "
-        "above the running modes.  "
+        "above the running modes; handlers of the mode's own started event that stop AND restart it (restart idiom, or stop + start "
+        "on its stopped event), with the mode's queue events free of handlers (the callback of the first mode_<m>_started is "
+        "still outstanding when the mode is up again) or with a holder on mode_<m>_starting (the stale callback arrives while "
+        "the restarted mode is starting); the run of the mode_start() hook is observed per _mode_started_callback.  "
         "dev: a machine with a running (fake) game and 1-2 generated game modes (priorities 5..200, restart_on_next_ball, "
         "start on ball_started) with 1-3 shots each (shared switches, start_enabled yes/no/absent, persist_enable yes/no, "
         "enable/disable/restart/reset events immediate or delayed), counters and timers with delayed control events; script "
@@ -48,8 +51,10 @@ RULE = ("life: a machine with the built-in attract mode (start-tagged switch) an
 TRUSTED_BASE = [
     "Coq 8.16.1 kernel (coqc), vm_compute for the _refuted witnesses and for evaluating the model in the correspondence run; no native_compute",
     "axioms: none (every Print Assumptions is 'Closed under the global context')",
-    "hand-written transition-system model coq/C07/Model.v (fx=true: tree with fixes/C07-*.patch) tied to the code by "
-    "replaying every observed lifecycle step of the real Mode objects on the model (harness/props/c07.py)",
+    "hand-written transition-system model coq/C07/Model.v (fx=true: tree with fixes/C07-*.patch incl. "
+    "C07-stale-started-callback.patch: the per-mode flag _start_hook_pending is part of the state) tied to the code by "
+    "replaying every observed lifecycle step of the real Mode objects on the model (harness/props/c07.py); the status of "
+    "a CbStarted step is 'the wrapped mode_start() ran during this execution of _mode_started_callback'",
     "the event bus (order and completion of queue events / callbacks) is not modelled: completions are operations of "
     "the history and the theorems quantify over all orders (C01/C02 own the bus)",
     "harness: class-level recording wrappers around six Mode methods, Mode.mode_start and EventManager._post, installed "
@@ -74,6 +79,7 @@ ASSUMPTIONS = [
     "code running on behalf of a mode registers things only while the mode is not idle, config players only inside start() (guards of the Add operation; Own.v: a tracked OReg of an idle mode is refused)",
     "own suite: fixed mode configuration (generated histories only); the context state of light/show players and machine variables are oracle-only; a wake-up with several due deadlines is outside the model's domain (status 2, never observed)",
     "never-fire-after-stop is stated for callbacks that were only ever registered through the mode and up to their next registration",
+    "mode_start() hook: 'at least once' is proved up to delivery of a started-callback before the mode's _stopped (the bus delivers every posted callback: C02); the oracle checks on the code that a mode that is up after everything settled has had the hook of its latest start",
     "liveness: proved up to delivery (nothing but the outstanding completion ends a transition; at its first delivery the mode moves on); delivery itself is the bus' job (C02) and is checked by the oracle at every quiescent point (a mode is inside a transition only while a rig handler holds that queue)",
 ]
 
@@ -197,7 +203,32 @@ def gen_life(rng, tier, i):
         blockers = [b for b in blockers if b["event"] != "mode_%s_stopping" % fm]
         if focus in (1, 3):
             blockers.append({"event": "mode_%s_stopping" % fm, "prio": rng.choice([1, 1000])})
+    # third pass (finding 7): handlers of the mode's own started event stop AND restart it (restart idiom, or a stop and a
+    # start reaction), so that the callback of the first mode_<m>_started is still outstanding when the mode is up again
+    # (focus 4), or is delivered while the restarted mode waits behind a held mode_<m>_starting queue (focus 5).  attract is
+    # the mode whose mode_start() hook registers something.
+    hook_focus = None
+    if focus in (4, 5):
+        fm = rng.choice(allm)
+        hook_focus = fm
+        if rng.random() < 0.7:
+            reactions.append({"event": "mode_%s_started" % fm, "prio": rng.choice([1, 150, 1000]), "action": "stop_restart",
+                              "target": fm, "budget": rng.choice([1, 1, 2])})
+        else:
+            reactions.append({"event": "mode_%s_started" % fm, "prio": 1000, "action": "stop", "target": fm, "budget": 1})
+            reactions.append({"event": "mode_%s_stopped" % fm, "prio": rng.choice([1, 150]), "action": "start", "target": fm,
+                              "budget": 1})
+        blockers = [b for b in blockers if b["event"] not in ("mode_%s_stopping" % fm, "mode_%s_starting" % fm)]
+        if focus == 5:
+            blockers.append({"event": "mode_%s_starting" % fm, "prio": rng.choice([1, 1000])})
     traced = [["mode_%s_%s" % (m, p), rng.choice([2, 500])] for m in allm for p in PHASES if rng.random() < 0.6]
+    if focus == 4:
+        # any handler on the mode's two queue events turns their dispatch into a task of its own; the event queue then runs
+        # dry and the first started-callback is delivered before the restart is complete.  Keep those events free of handlers
+        # so that the whole stop + restart happens while the callback is outstanding.
+        qev = ("mode_%s_stopping" % hook_focus, "mode_%s_starting" % hook_focus)
+        traced = [t for t in traced if t[0] not in qev]
+        reactions = [r for r in reactions if r["event"] not in qev]
     devs = device_events(modes)
     qts = ["qt_" + n for n in names if "queue_relay_player" in modes[n]]
     for q in qts:
@@ -236,6 +267,13 @@ def gen_life(rng, tier, i):
             script.append(["adv", rng.choice([1, 2, 4, 4, 8, 8, 12, 16, 17, 24])])
         else:
             script.append(["release"])
+    if hook_focus is not None:
+        # make sure the focused mode goes through a start early in the script (attract is up: restart it)
+        kick = [["stopcb", "attract", "attract"]] if hook_focus == "attract" else [["start", hook_focus, None]]
+        if focus == 5:
+            kick += [["release"], ["release"]]
+        at = rng.randrange(0, min(3, len(script)) + 1)
+        script[at:at] = kick
     return {"modes": modes, "reactions": reactions, "blockers": blockers, "traced": traced, "script": script}
 
 
@@ -1032,42 +1070,36 @@ def oracle_life(case, out):
             fails.append({"sig": "transition-stuck", "what": "after script step %s mode(s) %s are inside a transition (phases %s) "
                           "although no handler holds the queue of that transition" % (tag, [names[i] for i in bad], phases)})
             break
-    # known finding started-callback-of-earlier-start-runs-hook: the callback of mode_<m>_started of an EARLIER start is
-    # delivered after the mode was stopped and started again (stop + restart from handlers of that very event); the mode is
-    # active, so _mode_started_callback runs the mode_start() hook, and the callback of the current start runs it again.
-    # Exactly that pattern: two hook runs after one accepted start while two started-callbacks were outstanding.
-    stale_hook = {}
-    runs, outstanding = {}, {}
-    for st in out["steps"]:
+    # the mode_start() hook is part of the start sequence: exactly once per accepted _started (finding 7, repaired by
+    # fixes/C07-stale-started-callback.patch).  Direct predicate on the observed executions of _started / _stopped /
+    # _mode_started_callback and of the hook itself (wrapper around Mode.mode_start / Attract.mode_start):
+    #  * a hook run is legitimate only when a _started of that mode ran since the mode's last hook run and last _stopped
+    #    (otherwise: second run for one start - the callback of an EARLIER start's mode_<m>_started delivered after a stop +
+    #    restart - or a run on a mode that has stopped);
+    #  * a mode that is up when everything has settled has had the hook of its current start.
+    due = {}
+    for idx, st in enumerate(out["steps"]):
         k, i = st[0], st[1]
-        if k == "Start" and st[3] == 1:
-            runs[i] = 0
-        elif k == "QStarted" and st[3] == 1:
-            outstanding[i] = outstanding.get(i, 0) + 1
-        elif k == "CbStarted":
-            if st[3] == 1:
-                runs[i] = runs.get(i, 0) + 1
-                if runs[i] == 1:
-                    first_outstanding = outstanding.get(i, 0)
-                    runs[(i, "o")] = first_outstanding
-                elif runs.get((i, "o"), 0) >= 2:
-                    stale_hook[i] = stale_hook.get(i, 0) + 1
-            outstanding[i] = outstanding.get(i, 0) - 1
-    if stale_hook:
-        i = sorted(stale_hook)[0]
-        fails.append({"sig": "started-callback-of-earlier-start-runs-hook",
-                      "what": "mode %s: the mode_start() hook ran %d times after one accepted start: the callback of the "
-                              "mode_%s_started event of an earlier start was delivered after the mode had been stopped and "
-                              "started again" % (NAMES[i], 1 + stale_hook[i], NAMES[i])})
+        if k == "QStarted":
+            due[i] = True
+        elif k == "QStopped":
+            due[i] = False
+        elif k == "CbStarted" and st[3] == 1:
+            if not due.get(i, False):
+                fails.append({"sig": "start-hook-repeated",
+                              "what": "mode %s: mode_start() ran (step %d) although no _started of the mode has run since its "
+                                      "previous mode_start() / its last _stopped: the hook runs more than once for one start, "
+                                      "or on a stopped mode" % (NAMES[i], idx)})
+                break
+            due[i] = False
+    else:
+        up = set(NAMES.index(n) for n, p in zip(names, out.get("final_phases") or []) if p == 2)
+        missing = [i for i, d in sorted(due.items()) if d and i in up]
+        if missing:
+            fails.append({"sig": "start-hook-missing", "what": "mode(s) %s are up after everything settled but mode_start() of "
+                          "their latest start never ran" % [NAMES[i] for i in missing]})
     if out.get("at_base") and out.get("dump_diff"):
-        # what exactly that defect leaves in the dump: the attract mode (the only recorded mode whose hook registers
-        # something) is up and has its two start-button handlers once more per extra hook run
-        expected = []
-        if 0 in stale_hook and (out.get("final_phases") or [0])[0] == 2:
-            expected = [["+", "S s_start 0 Attract.start_button_released 0"],
-                        ["+", "S s_start 1 Attract.start_button_pressed 0"]] * stale_hook[0]
-        if not (expected and sorted(map(str, out["dump_diff"])) == sorted(map(str, expected))):
-            fails.append({"sig": "registry-not-restored", "what": "registries differ from the pre-start dump: %s" % out["dump_diff"][:6]})
+        fails.append({"sig": "registry-not-restored", "what": "registries differ from the pre-start dump: %s" % out["dump_diff"][:6]})
     if out.get("late_player_posts"):
         fails.append({"sig": "played-after-stop", "what": "a config player of a mode that is not active played: %s" % out["late_player_posts"][:3]})
     if out.get("regs_missing"):
@@ -2565,7 +2597,10 @@ LEVEL_TEXT = ("Machine-checked proof (Coq) over three hand-written models, for e
               "of Mode.start/_started/stop/_stopped/_mode_stopped_callback and ModeController.set_mode_state: each mode's lifecycle "
               "events follow the cycle will_start..stopped, active_modes is exactly the active modes sorted by (priority, name), an "
               "idle mode owns nothing in the registries, other owners' entries are never touched, and an open transition is ended "
-              "by nothing but its completion, which is accepted when delivered; (2) the mode-device layer (persisted enable "
+              "by nothing but its completion, which is accepted when delivered; the mode_start() hook (state "
+              "Mode._start_hook_pending) runs at most once per _started from any state and for any number / order of delivered "
+              "started-callbacks, the first callback delivered before the mode's _stopped runs it, it never runs on a mode that "
+              "is not in active_modes and a stale started-callback changes nothing; (2) the mode-device layer (persisted enable "
               "flags, shot registrations, immediate and delayed control events posted at any time): an idle mode has no loaded "
               "device, no registration, no pending delayed control event and no control handler, every registration is "
               "tracked, a shot is hit once per activation, no action reaches a removed device; (3) the controller at ball end / "
@@ -2581,6 +2616,7 @@ LEVEL_NOTE = ("Trusted: Coq kernel + vm_compute; no axioms. Models hand-written;
               "operations; all orders covered; liveness proved up to delivery); in the lifecycle model registrations are inputs "
               "(Add operations) and removals are predicted, in the device model control events are inputs and registrations, "
               "delays and removals are predicted; tie = replay of observed steps + direct oracle (cycle order, sorted active list, "
+              "mode_start() exactly once per _started and never on a stopped mode, "
               "idle-owns-nothing over every registry incl. the machine-wide delay manager, complete registry dump equal at equal "
               "game states, one hit per activation, no stuck transition at any quiescent point, controller requests at ball end, "
               "no exception; own suite: no handler registered through the mode is invoked after its stop was requested, no player "
